@@ -20,7 +20,7 @@ for ID in "$@"; do
     if [ -f $SRC/$ID/_seed/demo${K}_test.go ]; then cp $SRC/$ID/_seed/demo${K}_test.go $d/demo_test.go.txt; else cp $SRC/$ID/_seed/demo$K/main.go $d/demo_main.go.txt; fi
     [ -f $SRC/$ID/_seed/notes$K.md ] && cp $SRC/$ID/_seed/notes$K.md $d/notes.md
     pkg=$(grep -m1 '^package ' $d/demo_*.go.txt | awk '{print $2}')
-    dir=.; case "$pkg" in cmd|cmd_test) dir=cmd;; esac
+    dir=.; case "$pkg" in cmd|cmd_test) dir=cmd;; compattest|compattest_test) dir=internal/compattest;; esac
     out=$(tools/seed_matrix.sh own $ID-$n)
     echo "  $out"
     code=$(echo "$out" | awk '{print $3}'); keys=$(echo "$out" | awk '{print $4}')
